@@ -81,7 +81,7 @@ PROPS = {
     "C04": P(hunt=True, strict_ops=["canon"], post_filter=c04_library_order, mc=[{"module": "MC_Canon.tla", "cfg": "MC_Canon_q.cfg", "only": "quick"},
                             {"module": "MC_Canon.tla", "cfg": "MC_Canon_t.cfg", "tier": "thorough", "workers": 16}],
              rule="canonization calls with the walk hook; exact orbit minimum by enumeration in the specification",
-             chunk_weight=9000),
+             chunk_weight=15000),
     "C05": P(hunt=True, strict_ops=["canon"], mc=[{"module": "MC_Canon.tla", "cfg": "MC_Canon_q.cfg", "only": "quick"},
                             {"module": "MC_Canon.tla", "cfg": "MC_Canon_t.cfg", "tier": "thorough", "workers": 16}],
              rule="canonization certificates applied by the specification's ApplyCert; every representative fed back",
